@@ -587,7 +587,7 @@ func runC15GobMulti(c *Ctx) *Violation {
 	}
 	// damage only bytes of literal strings that come after the second key
 	var spots []int
-	lits := append(append([]string{"map[string]interface {}", "[]interface {}", "k3"}, jsonKeys...), jsonStrs...)
+	lits := append(append([]string{"map[string]interface {}", "[]interface {}"}, jsonKeys...), jsonStrs...)
 	for _, l := range lits {
 		if len(l) == 0 {
 			continue
@@ -630,6 +630,11 @@ func runC15GobMulti(c *Ctx) *Violation {
 			return &Violation{"C15.t3-gob-partial-map", fmt.Sprintf("NewMapGob returned err=%v together with a partially decoded Map %s", err, clip(Canon(back), 300))}
 		}
 		if err == nil {
+			if len(back) != len(keys) && len(y) == len(g) {
+				// the top-level keys are never damaged: a successful decode has all of them
+				c.Put("gob_input", fmt.Sprintf("%x", y))
+				return &Violation{"C15.t3-gob-error-swallowed", fmt.Sprintf("NewMapGob returned no error but only %d of %d entries: %s", len(back), len(keys), clip(Canon(back), 300))}
+			}
 			if v := encodeAll(c, "NewMapGob", back); v != nil {
 				return v
 			}
